@@ -1,7 +1,7 @@
 (* GENERATED from C06_Props.v by tools/c06.py: the theorem statements as Props, for the proof files. *)
 From Coq Require Import List NArith Bool Arith.
 From Dae.gen Require Import C06_Extracted.
-From Dae Require Import C06_Spec C06_Model C06_Async C06_Session C06_Clock C06_Key C06_HttpVar.
+From Dae Require Import C06_Spec C06_Model C06_Async C06_Session C06_Clock C06_Key C06_HttpVar C06_Decrypt.
 Import ListNotations.
 Open Scope N_scope.
 
@@ -177,6 +177,16 @@ Definition C06_key_fingerprint_nonvacuous_stmt : Prop :=
   fingerprint d = Ok (Some ([0; 0; 0; 1], [1; 2; 3; 4; 5; 6; 7; 8], [9; 9]))
   /\ key_dcid d = Ok (Some [1; 2; 3; 4; 5; 6; 7; 8])
   /\ fingerprint (firstn 14 d) = Ok None /\ key_dcid (firstn 14 d) = Ok (Some [1; 2; 3; 4; 5; 6; 7; 8]).
+
+Definition C06_decrypt_arith_no_oob_stmt : Prop :=
+  forall len pnoff blockend pnlen : N,
+    1 <= pnoff -> pnoff + max_pn_len <= len -> blockend <= len -> 1 <= pnlen <= max_pn_len ->
+    decrypt_arith quic_sample_guard_on_block len pnoff blockend pnlen <> Err Oob.
+
+Definition C06_decrypt_buffer_guard_refuted_stmt : Prop :=
+  exists len pnoff blockend pnlen : N,
+    1 <= pnoff /\ pnoff + max_pn_len <= len /\ blockend <= len /\ 1 <= pnlen <= max_pn_len
+    /\ decrypt_arith false len pnoff blockend pnlen = Err Oob.
 
 Definition C06_nonvacuous_stmt : Prop :=
   let h := {| h_minor := 3; h_random := repeat 7 32%nat; h_session := [1; 2; 3]; h_suites := [19; 1; 19; 2];
